@@ -31,7 +31,7 @@ import (
 func init() {
 	core.Register(&core.Monitor{
 		ID:            "C08",
-		Rule:          "era x output form (Mary, Alonzo legacy; Babbage, Conway, Dijkstra legacy and map) x quantity q in {-2^70,-2^64,-2^63,-1 (paired with 1-q, i.e. also 2^63+1, 2^64+1, 2^70+1), 0, 1, 2^63, 2^64-1, 2^64, 2^65 (as the sum of in-range inputs), and -2^70..2^70 in the collateral return} x CBOR form (shortest uint/nint/bignum, forced tag-2/tag-3 bignum) x position (first output, second output, collateral return) in a transaction that balances arithmetically; thorough adds PRNG quantities of 1..90 bits; a case is non-trivial when the transaction bytes parse as CBOR and carry a multi-asset output; distinct by the full case description",
+		Rule:          "era x output form (Mary, Alonzo legacy; Babbage, Conway, Dijkstra legacy and map) x quantity q in {-2^70,-2^64-1,-2^64,-2^64+1,-2^63-1,-2^63,-2^63+1,-2^31,-2,-1 (paired with 1-q, i.e. also 2^63+1, 2^64+1, 2^70+1), 0, 1, 2^63, 2^64-1, 2^64, 2^65 (as the sum of in-range inputs), and -2^70..2^70 in the collateral return} x CBOR form (shortest uint/nint/bignum, forced tag-2/tag-3 bignum) x position (first output, second output, collateral return) in a transaction that balances arithmetically; thorough adds PRNG quantities of 1..90 bits; a case is non-trivial when the transaction bytes parse as CBOR and carry a multi-asset output; distinct by the full case description",
 		MinNontrivial: 300,
 		Assumptions: []string{
 			"the token-carrying transaction built by ledgergen is valid in every other respect (pre-flight: the in-range balanced transaction is accepted in every era / output form)",
@@ -209,7 +209,12 @@ func cases(c *core.Ctx) []tcase {
 	for _, sh := range shapes {
 		for _, f := range []qform{formNatural, formBignum} {
 			for pos := 0; pos < 2; pos++ {
-				for _, q := range []*big.Int{big.NewInt(-1), neg(pow2(63)), neg(pow2(64)), neg(pow2(70))} {
+				// sign x magnitude boundaries: around the int64 and the uint64 limits
+				// (a range check split into a machine-word path and a bignum path
+				// can lose the sign test in exactly one of these bands)
+				for _, q := range []*big.Int{big.NewInt(-1), big.NewInt(-2), neg(pow2(31)), neg(new(big.Int).Sub(pow2(63), big.NewInt(1))),
+					neg(pow2(63)), neg(new(big.Int).Add(pow2(63), big.NewInt(1))), neg(new(big.Int).Sub(pow2(64), big.NewInt(1))),
+					neg(pow2(64)), neg(new(big.Int).Add(pow2(64), big.NewInt(1))), neg(pow2(70))} {
 					cs = append(cs, tcase{sh, "pair", q, f, pos})
 				}
 				for _, q := range []*big.Int{pow2(64), pow2(65)} {
@@ -221,7 +226,8 @@ func cases(c *core.Ctx) []tcase {
 				cs = append(cs, tcase{sh, "zero", big.NewInt(0), f, pos})
 			}
 			if sh.era.HasCollateralReturn() {
-				for _, q := range []*big.Int{big.NewInt(-1), neg(pow2(63)), neg(pow2(64)), neg(pow2(70)), pow2(64), pow2(70)} {
+				for _, q := range []*big.Int{big.NewInt(-1), neg(pow2(63)), neg(new(big.Int).Add(pow2(63), big.NewInt(1))), neg(new(big.Int).Sub(pow2(64), big.NewInt(1))),
+					neg(pow2(64)), neg(pow2(70)), pow2(64), new(big.Int).Add(pow2(64), big.NewInt(1)), pow2(70)} {
 					cs = append(cs, tcase{sh, "collret", q, f, 0})
 				}
 			}
